@@ -317,8 +317,20 @@ func (c *Ctx) lookupsConsultTheTree() {
 		g.Expand = func(callee *ssa.Function, site ssa.CallInstruction) bool {
 			return callee != nil && callee.Blocks != nil && callee.Pkg != nil && callee.Pkg.Pkg.Path() == pkgTopics && !e.walk(site) && recvNamed(callee) == e.typ
 		}
-		walkN := nodeM(func(call ssa.CallInstruction) bool { return e.walk(call) })
-		if len(nodesMatching(g, walkN)) == 0 {
+		walkCall := nodeM(func(call ssa.CallInstruction) bool { return e.walk(call) })
+		// looking at the root node itself (`if len(mt.sroot.snodes) == 0 { return nil }`) is consulting the tree, too
+		walkN := func(nd paths.Node) bool {
+			if walkCall(nd) {
+				return true
+			}
+			u, ok := nd.Instr.(*ssa.UnOp)
+			if !ok || u.Op != token.MUL {
+				return false
+			}
+			fp := framePath(nd.F, u.X)
+			return fp.Root == ssa.Value(fn.Params[0]) && len(fp.Fields) >= 2 && (fp.Fields[0] == "sroot" || fp.Fields[0] == "rroot")
+		}
+		if len(nodesMatching(g, walkCall)) == 0 {
 			c.R.Bad(ruleT18, key, c.P.Pos(fn.Pos()), e.typ+"."+e.name+" never walks the tree (nor asks the provider)")
 			continue
 		}
